@@ -206,3 +206,5 @@ def run(ctx, led):
     run_rule(led, "M5", "the solution iterator remembers across calls that a solution was seen, so a resumed final call reports Finished, not Unsatisfiable (shared with C03-B3)", _C03.b3, ctx)
     from . import kernel as _kernel2
     _kernel2.run_lifecycle(led, ctx, "M")
+    from . import kernel as _kernel3
+    _kernel3.run_bundle(led, ctx, "M")
